@@ -103,7 +103,12 @@ func runRev(toks []string) (string, string) {
 			verdict = "FAIL:revisit-untruthful:ToRevisitRecord failed: " + errr.Error()
 			return
 		}
-		defer rev.Close()
+		revClosed := false
+		defer func() {
+			if !revClosed {
+				rev.Close()
+			}
+		}()
 		rb, _ := readBlock(rev)
 		obs = fmt.Sprintf("rv:ok;t=%d;h=%s;b=%s;k=%s", typeNum(rev), hxs(rev.WarcHeader().String()), hxs(rb), blockKind(rev.Block()))
 		h := rev.WarcHeader()
@@ -155,6 +160,9 @@ func runRev(toks []string) (string, string) {
 		toMerge := rev
 		if viaStream {
 			toMerge = back
+			// the derived revisit has been written out and is done with: closing it must not touch the original
+			rev.Close()
+			revClosed = true
 		}
 		merged, errg := toMerge.Merge(orig)
 		if errg != nil {
